@@ -164,6 +164,13 @@ func MakeProfile(prop string, seed uint64, tier string) *Profile {
 			p.CrashW = 3
 			p.MaxCrashes = 1 + r.Intn(3)
 		}
+	case "C09":
+		p.HTTP = true
+		p.PoolSize = 0
+		p.Items = 15 + r.Intn(30)
+		p.RootsW = 6
+		p.StartSize = []int64{0, 1, 255}[r.Intn(3)]
+		p.ClockW, p.StallW, p.StopW = 0, 0, 0
 	case "C08":
 		p.TamperW = []int{2, 5}[r.Intn(2)]
 		p.Tag = "tamper"
@@ -195,6 +202,18 @@ func ProfileFromJSON(b []byte) (*Profile, error) {
 func (w *World) buildWorkload() {
 	p := w.prof
 	r := core.NewRand(core.Mix(w.sim.Seed, 0x17e35))
+	if p.Prop == "C09" {
+		seen := map[[32]byte]bool{}
+		for k := 0; k < p.Items; k++ {
+			it := w.makeChainItem(k, r)
+			if seen[it.Key] {
+				continue
+			}
+			seen[it.Key] = true
+			w.addItem(it)
+		}
+		return
+	}
 	var lastPre *Item
 	for k := 0; k < p.Items; k++ {
 		shape := p.Shapes[r.Intn(len(p.Shapes))]
